@@ -268,6 +268,10 @@ def make_frames(ctx, B):
     pool.append(('legacy-0blocks', 'legacy', handmade_legacy_frame([]), b'')); pool.append(('legacy-1block', 'legacy', handmade_legacy_frame([d1]), d1))
     pool.append(('legacy-3blocks', 'legacy', handmade_legacy_frame([d1, d3, d1]), d1 + d3 + d1))
     for mi, sz in [(0, 0), (3, 3), (15, 70000), (7, 40)]: pool.append(('skip-%d-%d' % (mi, sz), 'skippable', skippable_frame(mi, sz, rng), b''))
+    # frames whose decoded size is an exact multiple of the decoders' buffer sizes (64 KB, 128 KB), compressed blocks, with and without a frame checksum:
+    # the frame ends exactly when an output buffer is full
+    d64 = gen_content(rng, 65536, 'text'); d128 = gen_content(rng, 131072, 'lz')
+    real(['--no-frame-crc'], d64, 'lz4-64K-nocrc'); real(['--no-frame-crc', '-B4', '-BD'], d128, 'lz4-128K-nocrc'); real(['-1'], d64, 'lz4-64K')
     return pool
 
 def decode_run(ctx, exe, data, how, wd, extra=()):
@@ -292,6 +296,12 @@ def check_c15(tier, seed, wd):
     seqs = seqs[: (400 if ctx.thorough else 70)]
     for _ in range(300 if ctx.thorough else 40):
         seqs.append(tuple(rng.randrange(len(pool)) for _ in range(rng.randint(3, 12 if ctx.thorough else maxlen + 2))))
+    # pinned: every "buffer-multiple" frame alone, last, and in front of each other kind of frame
+    idx = {t[0]: i for i, t in enumerate(pool)}
+    for x in ('lz4-64K-nocrc', 'lz4-128K-nocrc', 'lz4-64K'):
+        if x in idx:
+            for seq in ([x], [x, 'legacy-real'], ['legacy-1block', x], [x, 'skip-7-40', x], [x, 'lz4-default'], ['skip-3-3', x]):
+                if all(t in idx for t in seq): seqs.append(tuple(idx[t] for t in seq))
     for s in seqs:
         data = b''.join(pool[i][2] for i in s); content = b''.join(pool[i][3] for i in s); tags = [pool[i][0] for i in s]; kinds = [pool[i][1] for i in s]
         for bk in ('st', 'mt'):
